@@ -26,6 +26,7 @@ ASSUMPTIONS = ['ref/sighash.py + ref/interp.py implement consensus (BIP143 examp
                'bare multisig inputs cannot be expressed through Input and are not generated']
 SHARDS = {'quick': 16, 'thorough': 16}
 WALL_CAP = {'quick': 600, 'thorough': 3000}
+KF_LEGACY_TYPES = 'C01-legacy-sighash-other-hash-types'
 
 
 def _ref_digest(ref_tx, k, inp, hashtype=1):
@@ -63,6 +64,27 @@ def check_api(ctx, case):
                      'input %d (%s): library digest %s, consensus digest %s' % (k, inp['kind'], got.hex(), want.hex()),
                      case)
             return
+    # the other hash types: the library signs with SIGHASH_ALL only, but it CHECKS a signature against the digest its
+    # hash type byte selects, and signature_hash(i, hash_type) is what an external signer is given
+    from ref import sighash as rsig
+    for k, inp in enumerate(plan['inputs']):
+        for ht in case.get('hash_types') or ():
+            want = _ref_digest(ref_tx, k, inp, ht)
+            try:
+                got = t.signature_hash(k, ht, t.inputs[k].witness_type)
+            except Exception as e:
+                ctx.refusal('digest.hash_type_%#x.%s' % (ht, type(e).__name__))
+                continue
+            ctx.klass('digest.hash_type.%s' % ('segwit' if txplan.prevout(inp)['segwit'] else 'legacy'))
+            if got != want:
+                po = txplan.prevout(inp)
+                kf = None
+                if not po['segwit'] and got == rsig.legacy_sighash(ref_tx, k, po['script_code'], 1, _append=ht):
+                    kf = KF_LEGACY_TYPES
+                ctx.disc('digest.hash_type_mismatch:%s' % ('segwit' if po['segwit'] else 'legacy'),
+                         'input %d (%s), hash type %#x: library digest %s, consensus digest %s' %
+                         (k, inp['kind'], ht, got.hex(), want.hex()), case, kf=kf)
+                return
     # sign through the library, verify with the reference interpreter
     try:
         txplan.sign_history(t, plan)
@@ -262,6 +284,27 @@ def check_history(ctx, case):
 DISPATCH = {'api': check_api, 'parse': check_parse, 'history': check_history}
 
 
+def probes(ctx):
+    saved = ctx.findings
+    ctx.findings = {}
+    case = {'kind': 'api', 'hash_types': [2],
+            'plan': {'inputs': [{'alt_type': False, 'compressed': True, 'give_spk': False, 'kind': 'p2pkh', 'm': 1,
+                                 'n': 0, 'prev': '11' * 32, 'secrets': [0x1234567], 'seq': 0xffffffff, 'signers': [0],
+                                 'sort': False, 'value': 100000}],
+                     'locktime': 0, 'network': 'bitcoin', 'version': 1,
+                     'outputs': [{'by': 'address', 'kind': 'p2pkh', 'payload': '22' * 20, 'value': 90000}]}}
+    try:
+        try:
+            check_api(ctx, case)
+            ctx.probe(KF_LEGACY_TYPES, False, '')
+        except Discrepancy as d:
+            ctx.probe(KF_LEGACY_TYPES, True, 'signature_hash(0, SIGHASH_NONE) of a legacy P2PKH input is the hash of the '
+                      'SIGHASH_ALL preimage with hash type 02 appended, not the consensus digest for SIGHASH_NONE (%s)' %
+                      d.bucket)
+    finally:
+        ctx.findings = saved
+
+
 def replay(ctx, case):
     DISPATCH[case['kind']](ctx, case)
 
@@ -291,7 +334,9 @@ def run(ctx):
         DISPATCH[case['kind']](ctx, case)
 
     mi = ctx.scale(4, 8)
-    api = st.fixed_dictionaries({'kind': st.just('api'), 'plan': txplan.plans(max_inputs=mi)})
+    api = st.fixed_dictionaries({'kind': st.just('api'), 'plan': txplan.plans(max_inputs=mi),
+                                 'hash_types': st.lists(st.sampled_from([2, 3, 0x81, 0x82, 0x83]), max_size=2,
+                                                        unique=True)})
     ctx.run_given('api', api, prop, ctx.scale(60, 1500))
     par = st.fixed_dictionaries({'kind': st.just('parse'), 'plan': txplan.plans(max_inputs=mi)})
     ctx.run_given('parse', par, prop, ctx.scale(40, 1000))
